@@ -124,9 +124,14 @@ def unit_reinforce(item):
     ref_scaler = RefScaler(scale)
     ema, ema_w = None, None
     bl_policy = copy.deepcopy(policy).eval()
-    for step in range(4 if bname.startswith("warmup") else 3):  # warm-up: one callback beyond n_epochs
-        if bname.startswith("warmup") and step > 0:
-            model.baseline.epoch_callback(policy, env=env, batch_size=2, device="cpu", epoch=step - 1, dataset_size=2)
+    # warm-up: two training steps inside every epoch (the moving average must carry over from one mixture step to
+    # the next untouched) and one epoch callback beyond n_epochs
+    cb_before = (False, False, True, False, True, False, True) if bname.startswith("warmup") else (False, False, False)
+    n_cb = 0
+    for step, cb in enumerate(cb_before):
+        if cb:
+            model.baseline.epoch_callback(policy, env=env, batch_size=2, device="cpu", epoch=n_cb, dataset_size=2)
+            n_cb += 1
         b = batch.clone()
         if bname == "extra":
             with torch.no_grad(), Seam().active():
@@ -157,9 +162,9 @@ def unit_reinforce(item):
             bref = ema.expand_as(r)
         elif bname.startswith("warmup"):
             alpha = model.baseline.alpha
-            want_alpha = min(1.0, step / 2.0)
+            want_alpha = min(1.0, n_cb / 2.0)
             if abs(alpha - want_alpha) > 1e-9:
-                p.violation(sig(env_name, cfg, "alpha", f"step={step}"), rec, f"warm-up weight is {alpha} after {step} epoch callbacks with n_epochs=2, expected {want_alpha}")
+                p.violation(sig(env_name, cfg, "alpha", f"step={step}"), rec, f"warm-up weight is {alpha} after {n_cb} epoch callbacks with n_epochs=2, expected {want_alpha}")
             v_mean = r.mean().detach()
             if alpha < 1:
                 ema_w = r.mean().detach() if ema_w is None else 0.5 * ema_w + 0.5 * r.mean().detach()
@@ -195,7 +200,7 @@ def unit_reinforce(item):
             if num > 1e-5 + 1e-4 * den:
                 p.violation(sig(env_name, cfg, "critic_gradient", f"step={step}"), rec, f"{bname}: critic gradient differs from the gradient of the baseline loss (max abs diff {num})")
         p.outcome(f"{cfg}|{round(float(ref_loss), 4)}")
-    p.sample(dict(part="reinforce", env=skey, baseline=bname, reward_scale=scale, batch=ids, steps=3), cap=1)
+    p.sample(dict(part="reinforce", env=skey, baseline=bname, reward_scale=scale, batch=ids, steps=len(cb_before)), cap=1)
     return p
 
 
